@@ -5,6 +5,7 @@ Both handle the conversion of odML documents from and to Python dictionary objec
 import sys
 
 from .. import format as odmlfmt
+from ..dtypes import DType
 from ..info import FORMAT_VERSION
 from .parser_utils import InvalidVersionException, ParserException, odml_tuple_export
 
@@ -150,6 +151,10 @@ class DictWriter:
 
                 if hasattr(prop, attr):
                     tag = getattr(prop, attr)
+                    # A dtype given as DType member has to be serialized by its name;
+                    # yaml would write the enum member as a python object annotation.
+                    if isinstance(tag, DType):
+                        tag = tag.value
                     # Tuples have to be serialized as lists to avoid
                     # nasty python code annotations when writing to yaml.
                     if isinstance(tag, tuple):
